@@ -90,7 +90,7 @@ CHAIN_PLAN = {
     'quick': [
         (1, (0, 1, 2, 3), chains.STYLES, chains.SCOPES, 3),
         (2, (0, 1, 2, 3), chains.STYLES, chains.SCOPES, 3),
-        (3, (0, 3), chains.STYLES, chains.SCOPES, 2),
+        (3, (0, 3), chains.STYLES, ('global', 'func'), 2),
     ],
     'thorough': [
         (1, (0, 1, 2, 3), chains.STYLES, chains.SCOPES, 4),
